@@ -74,6 +74,8 @@ def to_trace(events):
             out.append({"ev": "DialRet", "k": e["id"], "ok": e["ok"]})
         elif ev == "ConnWrite" and not e.get("dead") and e.get("c", -1) >= 0:
             out.append({"ev": "ConnWrite", "c": e["c"], "k": e["k"]})
+        elif ev == "ReadFail" and e.get("kind") in ("eof", "err") and str(e.get("conn", "")).startswith("k"):
+            out.append({"ev": "ConnDie", "k": int(e["conn"][1:])})
         elif ev == "Deliver" and "c" in e:
             out.append({"ev": "Deliver", "c": e["c"]})
         elif ev == "ExchangeEnd":
@@ -83,6 +85,8 @@ def to_trace(events):
 
 def classify(trace, info):
     ev = info.get("event") or {}
+    if ev.get("ev") == "ExchangeEnd" and ev.get("r") == "err" and any(e["ev"] == "ConnDie" for e in trace[:info.get("line_in_trace") or 0]):
+        return "pipeline:query-fails-after-single-connection-death:not-retried-on-another-connection"
     if ev.get("ev") == "ExchangeEnd" and ev.get("r") == "err":
         line = info.get("line_in_trace") or len(trace)
         c = ev.get("c")
